@@ -47,7 +47,7 @@ func (h *H) advKeys() []advKey {
 	max := new(big.Int).Sub(new(big.Int).Lsh(big.NewInt(1), 256), big.NewInt(1))
 	limit := 3
 	if h.run.Thorough() {
-		limit = 6
+		limit = 4
 	}
 	// x = p + k, unreduced, with a valid y (both parities) and without
 	out = append(out, advKey{key33(2, p), "x = p"}, advKey{key33(3, p), "x = p, odd"})
